@@ -25,6 +25,7 @@ import pickle
 import queue as _queue
 import signal as _real_signal
 import sys
+import threading
 import types
 from typing import Any, Callable, Optional
 
@@ -130,6 +131,8 @@ class VQueue:
         w = self.world
         if w.current_child is not None:
             raise HarnessError('virtual child read from a queue')
+        if w.sched is not None and w.sched.closing and w.sched.current_helper() is not None:
+            raise _queue.Empty()      # the execution is over: left-over helper threads just run out
         if self.buf:
             item = self.buf.popleft()
             if self is w.result_queue:
@@ -256,6 +259,328 @@ class VThread:
         return False
 
 
+class HThread:
+    """threading.Thread stand-in for the *threaded* mode: the target runs in a real thread, but
+    only while it holds the baton, so exactly one thread runs at any time and every switch is an
+    explorer choice.  Yield points: main thread - labtech LINE events in runners/process.py while a
+    helper is alive, and join(); helper threads - every labtech LINE event they execute; lock
+    acquisition (VLock) blocks cooperatively."""
+
+    def __init__(self, sched: 'TSched', target=None, args=(), kwargs=None, daemon=None, name=None):
+        self.sched = sched
+        self.target, self.args, self.kwargs = target, args, kwargs or {}
+        self.sem = threading.Semaphore(0)
+        self.state = 'new'            # new | live | done
+        self.idx = None
+        self.real = None
+        self.ident = None
+        self.steps = 0
+        self.waiting_lock = None
+        self.born = 0
+
+    def start(self):
+        s = self.sched
+        # fairness: a runnable thread is not starved for longer than two polling rounds of the
+        # caller (each round = one new consumer thread, i.e. up to 0.5 s of real time)
+        s.round += 1
+        for h in list(s.helpers):
+            if h.state == 'live' and s.round - h.born > 2:
+                s.force_run(h)
+        self.born = s.round
+        self.idx = len(s.helpers)
+        s.helpers.append(self)
+        self.state = 'live'
+        self.real = threading.Thread(target=self._body, daemon=True, name=f'vhelper-{self.idx}')
+        self.real.start()
+        self.ident = self.real.ident
+        s.by_ident[self.ident] = self
+        s.world.record('thread-start', self.idx)
+
+    def _body(self):
+        s = self.sched
+        self.sem.acquire()
+        try:
+            self.target(*self.args, **self.kwargs)
+        except (Livelock, HarnessError) as e:
+            s.pending_main_exc = e
+        except BaseException as e:  # noqa - what threading.excepthook would print
+            s.crashes.append((self.idx, type(e).__name__, str(e)[:200]))
+            s.world.record('thread-crashed', self.idx, type(e).__name__, str(e)[:120])
+        finally:
+            self.state = 'done'
+            s.world.record('thread-end', self.idx)
+            try:
+                s.helper_finished(self)
+            except BaseException as e:  # noqa - never die holding the baton
+                s.pending_main_exc = e if isinstance(e, HarnessError) else HarnessError(f'thread scheduler: {type(e).__name__}: {e}')
+                s.main_sem.release()
+
+    def join(self, timeout=None):
+        self.sched.main_join(self)
+
+    def is_alive(self):
+        return self.state == 'live'
+
+
+class VLock:
+    """threading.Lock stand-in for the threaded mode (a real lock would block the thread that
+    holds the baton)."""
+
+    def __init__(self, sched: 'TSched'):
+        self.sched = sched
+        self.owner = None
+
+    def acquire(self, blocking=True, timeout=-1):
+        s = self.sched
+        me = s.current_helper() or 'M'
+        while self.owner is not None:
+            if self.owner is me or self.owner == me:
+                s.world.record('self-deadlock', 'M' if me == 'M' else me.idx)
+                raise Livelock()
+            if not blocking:
+                return False
+            s.block_on_lock(me, self)
+        self.owner = me
+        return True
+
+    def release(self):
+        self.owner = None
+
+    def locked(self):
+        return self.owner is not None
+
+    def __enter__(self):
+        self.acquire()
+        return self
+
+    def __exit__(self, *exc):
+        self.release()
+        return False
+
+
+class SyncLock:
+    """threading.Lock stand-in for the synchronous mode (one thread): taking a lock that is
+    already held can never succeed - that is a hang of the code under test, not of the checker."""
+
+    def __init__(self):
+        self.held = False
+
+    def acquire(self, blocking=True, timeout=-1):
+        if self.held:
+            if not blocking:
+                return False
+            if CUR is not None:
+                CUR.record('self-deadlock', 'M')
+            raise Livelock()
+        self.held = True
+        return True
+
+    def release(self):
+        self.held = False
+
+    def locked(self):
+        return self.held
+
+    def __enter__(self):
+        self.acquire()
+        return self
+
+    def __exit__(self, *exc):
+        self.release()
+        return False
+
+
+class TSched:
+    """Baton scheduler for HThread helpers under a VWorld."""
+
+    def __init__(self, world: 'VWorld'):
+        self.world = world
+        self.helpers: list[HThread] = []
+        self.by_ident: dict = {}
+        self.main_ident = threading.get_ident()
+        self.main_sem = threading.Semaphore(0)
+        self.main_blocked_on: Optional[HThread] = None
+        self.main_waiting_lock: Optional[VLock] = None
+        self.closing = False
+        self.forcing = False
+        self.crashes: list = []
+        self.pending_main_exc = None
+        self.switches = 0
+        self.round = 0
+
+    # -- queries
+    def current_helper(self) -> Optional[HThread]:
+        i = threading.get_ident()
+        if i == self.main_ident:
+            return None
+        return self.by_ident.get(i)
+
+    def live(self) -> list:
+        return [h for h in self.helpers if h.state == 'live']
+
+    @staticmethod
+    def _lock_blocked(lock, me) -> bool:
+        return lock is not None and lock.owner is not None and lock.owner is not me
+
+    def runnable_helpers(self) -> list:
+        return [h for h in self.helpers if h.state == 'live' and not self._lock_blocked(h.waiting_lock, h)]
+
+    def main_runnable(self) -> bool:
+        if self.forcing:
+            return False
+        if self._lock_blocked(self.main_waiting_lock, 'M'):
+            return False
+        return self.main_blocked_on is None or self.main_blocked_on.state == 'done'
+
+    def fp(self):
+        return (self.world.fp(), tuple((h.state, h.steps) for h in self.helpers), self.main_blocked_on.idx if self.main_blocked_on else None)
+
+    # -- baton passing
+    def _to_helper_from_main(self, h: HThread):
+        self.switches += 1
+        h.sem.release()
+        if not self.main_sem.acquire(timeout=120):
+            raise HarnessError('thread scheduler: the baton never came back to the main thread')
+        if self.pending_main_exc is not None:
+            e, self.pending_main_exc = self.pending_main_exc, None
+            raise e
+
+    def _pass(self, me: Optional[HThread], target):
+        """helper `me` hands the baton to target ('M' or a helper) and, unless it is finished, waits."""
+        self.switches += 1
+        if target == 'M':
+            self.main_sem.release()
+        else:
+            target.sem.release()
+        if me is not None and me.state == 'live':
+            me.sem.acquire()
+
+    # -- yield points
+    def main_point(self, tag):
+        """main thread, about to execute a labtech line while helpers are alive."""
+        if self.closing or self.forcing:
+            return
+        live = self.runnable_helpers()
+        if not live:
+            return
+        c = self.world.chooser.choose(1 + len(live), ('thr', 'M', len(live)), fp=self.fp(),
+                                      label_of=lambda i: 'M' if i == 0 else f'H{live[i - 1].idx}')
+        if c:
+            self._to_helper_from_main(live[c - 1])
+
+    def helper_point(self, h: HThread, tag):
+        if self.closing or self.forcing:
+            return
+        h.steps += 1
+        others = [x for x in self.runnable_helpers() if x is not h]
+        opts = [h] + others + (['M'] if self.main_runnable() else [])
+        if len(opts) == 1:
+            return
+        c = self.world.chooser.choose(len(opts), ('thr', f'H{h.idx}', len(others), self.main_runnable()), fp=self.fp(),
+                                      label_of=lambda i: 'M' if opts[i] == 'M' else f'H{opts[i].idx}')
+        if c:
+            self._pass(h, opts[c])
+
+    def block_on_lock(self, me, lock: VLock):
+        """`me` ('M' or a helper) found the lock taken: run somebody else until it may be free."""
+        owner = lock.owner
+        if me == 'M':
+            self.main_waiting_lock = lock
+            try:
+                if owner == 'M' or owner.state != 'live':
+                    self.world.record('lock-never-released')
+                    raise Livelock()
+                self._to_helper_from_main(owner)
+            finally:
+                self.main_waiting_lock = None
+        else:
+            me.waiting_lock = lock
+            try:
+                if owner != 'M' and owner.state != 'live':
+                    self.world.record('lock-never-released')
+                    self.pending_main_exc = Livelock()
+                    self._pass(me, 'M')
+                    return
+                self._pass(me, owner)
+            finally:
+                me.waiting_lock = None
+
+    def main_join(self, h: HThread):
+        if h.state != 'live':
+            return
+        self.main_blocked_on = h
+        try:
+            while h.state == 'live':
+                live = self.runnable_helpers()
+                if not live:
+                    self.world.record('deadlock')
+                    raise Livelock()
+                # default: the joined thread runs
+                order = ([h] if h in live else []) + [x for x in live if x is not h]
+                c = 0
+                if len(order) > 1 and not self.closing and not self.forcing:
+                    c = self.world.chooser.choose(len(order), ('thr', 'join', len(order)), fp=self.fp(),
+                                                  label_of=lambda i: f'H{order[i].idx}')
+                self._to_helper_from_main(order[c])
+        finally:
+            self.main_blocked_on = None
+
+    def force_run(self, h: HThread):
+        """main thread: let h (and whatever it needs) run to its end, without further thread choices."""
+        was = self.forcing
+        self.forcing = True
+        try:
+            while h.state == 'live':
+                t = h
+                if self._lock_blocked(h.waiting_lock, h):
+                    t = h.waiting_lock.owner
+                    if t == 'M' or t.state != 'live':
+                        self.world.record('deadlock')
+                        raise Livelock()
+                self._to_helper_from_main(t)
+        finally:
+            self.forcing = was
+
+    def helper_finished(self, h: HThread):
+        """called in h's thread when its target has returned / raised: hand the baton on."""
+        if self.closing or self.forcing or self.pending_main_exc is not None:
+            self._pass(None, 'M')
+            return
+        live = self.runnable_helpers()
+        opts = (['M'] if self.main_runnable() else []) + live
+        if not opts:
+            self.world.record('deadlock')
+            self.pending_main_exc = Livelock()
+            self._pass(None, 'M')
+            return
+        c = 0
+        if len(opts) > 1:
+            c = self.world.chooser.choose(len(opts), ('thr', 'end', len(live), self.main_runnable()), fp=self.fp(),
+                                          label_of=lambda i: 'M' if opts[i] == 'M' else f'H{opts[i].idx}')
+        self._pass(None, opts[c])
+
+    def shutdown(self):
+        """end of the execution (main thread): left-over helpers run out without further choices."""
+        self.closing = True
+        for _ in range(4 * len(self.helpers) + 4):
+            live = self.runnable_helpers()
+            if not live:
+                break
+            live[0].sem.release()
+            if not self.main_sem.acquire(timeout=120):
+                raise HarnessError('thread scheduler: a helper thread did not run out at shutdown')
+        for h in self.helpers:
+            if h.state == 'live':          # blocked for good (lock never released): abandon the daemon thread
+                self.world.record('thread-abandoned', h.idx)
+                continue
+            if h.real is not None:
+                h.real.join(timeout=10)
+                if h.real.is_alive():
+                    raise HarnessError('helper thread did not end')
+        if self.pending_main_exc is not None and isinstance(self.pending_main_exc, HarnessError):
+            raise self.pending_main_exc
+
+
 class VSignal:
     SIGINT = _real_signal.SIGINT
     SIGTERM = _real_signal.SIGTERM
@@ -328,8 +653,9 @@ class VWorld:
     """State of the virtual OS for one execution."""
 
     def __init__(self, chooser, *, cpu_count=2, log_mode='eager', die_labels=(), die_exit0=False,
-                 max_idle=1, liveness_choice=True, terminate_choice=False):
+                 max_idle=1, liveness_choice=True, terminate_choice=False, threaded=False):
         self.chooser = chooser
+        self.sched: Optional[TSched] = TSched(self) if threaded else None
         self.cpu_count = cpu_count
         self.log_mode = log_mode
         self.die_labels = frozenset(die_labels)
@@ -439,7 +765,7 @@ class VWorld:
                     return
                 seen.add(id(t))
                 saved_dicts.append((t, dict(vars(t))))
-                for d in U.own_deps(t):
+                for d in U.all_dep_instances(t):
                     collect(d)
             collect(task)
         stage: list = []
@@ -708,7 +1034,7 @@ class VWorld:
 class Patched:
     """Context manager installing the virtual layer into labtech.runners.process."""
 
-    NAMES = ('multiprocessing', 'Thread', 'signal', 'os')
+    NAMES = ('multiprocessing', 'Thread', 'signal', 'os', 'Lock', 'RLock')
 
     def __init__(self, world: VWorld):
         self.world = world
@@ -720,7 +1046,17 @@ class Patched:
         # a name the module no longer imports is simply not replaced (code that stops using
         # threads, say, must still be explorable - its lines then run in the calling thread)
         self.saved = {n: getattr(P, n) for n in self.NAMES if hasattr(P, n)}
-        repl = {'multiprocessing': VMultiprocessing(self.world), 'Thread': VThread, 'signal': VSignal(self.world), 'os': VOs(self.world)}
+        thread_cls = VThread
+        if self.world.sched is not None:
+            sched = self.world.sched
+
+            def thread_cls(*a, **kw):   # noqa
+                return HThread(sched, *a, **kw)
+        repl = {'multiprocessing': VMultiprocessing(self.world), 'Thread': thread_cls, 'signal': VSignal(self.world), 'os': VOs(self.world)}
+        if self.world.sched is not None:
+            repl['Lock'] = repl['RLock'] = lambda: VLock(sched)
+        else:
+            repl['Lock'], repl['RLock'] = SyncLock, threading.RLock
         for n in self.saved:
             setattr(P, n, repl[n])
         self.prev = CUR
